@@ -588,6 +588,13 @@ func (s *Sched) teardown(buf *[]byte) {
 	s.aborting = true
 	for _, tm := range s.timers {
 		tm.dead = true
+		if tm.ch != nil {
+			// release a thread parked on this timer's channel; it exits at its next scheduler interaction
+			select {
+			case tm.ch <- time.Unix(0, s.cfg.Epoch+s.now):
+			default:
+			}
+		}
 	}
 	s.timers = nil
 	var ths []*Thread
